@@ -256,7 +256,100 @@ def rule_virtual_temperature(chk, prog):
   chk.at_least(rule, 4)
 
 
+def rule_loading_coefficients(chk, prog):
+  """The pressure-gradient force is −R·T_v·∇ln pₛ with T_v = (T_ref + T′)·(1 + Σ c_X·X).  The T′ part carries the loading
+  factors c_X inside `_virtual_temperature`; the T_ref part is carried by *_tendency_due_to_humidity as
+  R·T_ref·c_X·(curl | div)(X ∇ln pₛ).  Both halves must use the same c_X (value and sign) for every loading tracer X —
+  otherwise the sum depends on the split.  c_X is read off the virtual temperature and compared as normal forms."""
+  rule = 'C04.8-loading-coefficients'
+  GR = 'spherical_harmonic.Grid.'
+  keep = ('_virtual_temperature', '_get_specific_humidity', '_get_cloud_water', '_get_cloud_ice', '_reference_cloud_loading_terms', 'vorticity_tendency_due_to_humidity',
+          'divergence_tendency_due_to_humidity')
+  classes = ('MoistPrimitiveEquations', 'MoistPrimitiveEquationsWithCloudMoisture')
+  opaque = (c11.EXPL_OPAQUE - {f'{PE}.{c}.{m}' for c in classes + ('PrimitiveEquations',) for m in keep}) | {GR + n for n in ('to_nodal', 'to_modal', 'laplacian', 'cos_lat_grad')} | {f'{PE}.get_geopotential_diff'}
+  is_tr = lambda holder: (lambda t: t.k == 'sub' and t.a[1].k == 'const' and isinstance(t.a[1].a[0], str) and t.a[0].k == 'attr' and t.a[0].a[1] == 'tracers' and t.a[0].a[0] == holder)
+  for cname in classes:
+    cls = prog.cls(f'{PE}.{cname}')
+    ev = sym.Evaluator(prog, sym.Options(opaque=opaque, max_depth=6))
+    site, loc = f'{PE}.{cname}', (cls.file, cls.lineno)
+    # (a) loading coefficients from the T′ half
+    f = cls.find_method('curl_and_div_tendencies')
+    v, _, _ = ev.run(f, self_cls=cls)
+    aux = S(f.param_names()[1])
+    prods = [t for t in sym.walk(v) if t.k == 'bin' and t.a[0] == '*' and sym.contains(t, lambda z: z.k == 'attr' and z.a[1] == 'temperature_variation')
+             and not sym.contains(t, lambda z: z.k == 'attr' and z.a[1] == 'cos_lat_grad_log_sp') and sym.contains(t, is_tr(aux))]
+    chk.require(bool(prods), f'{site}.curl_and_div_tendencies: virtual temperature product not found')
+    rtv = max(prods, key=lambda t: len(sym.show(t, maxdepth=30)))
+    A = alg.Algebra(ev)
+    Rs = A.name(lambda t: t.k == 'attr' and t.a[1] in ('R', 'ideal_gas_constant') and sym.show(t.a[0]).endswith('physics_specs'), 'R', positive=True)
+    Rv = A.name(lambda t: t.k == 'attr' and t.a[1] in ('R_vapor', 'water_vapor_gas_constant') and sym.show(t.a[0]).endswith('physics_specs'), 'Rv', positive=True)
+    Tp = A.name(lambda t: t.k == 'attr' and t.a[1] == 'temperature_variation', 'Tprime')
+    names = sorted(tracer_keys(rtv))
+    atoms = {n_: A.name((lambda n_: lambda t: is_tr(aux)(t) and t.a[1].a[0] == n_)(n_), 'X_' + n_.split('_')[1 if n_.startswith('specific_cloud') else -1] + str(i)) for i, n_ in enumerate(names)}
+    e = sp.expand(sp.cancel(A.conv(rtv) / (Rs * Tp)))
+    res = alg.linear_coeffs(e, [atoms[n_] for n_ in names])
+    if not chk.check(res is not None and alg.equal(res[1], 1), rule, f'{site}._virtual_temperature: R·T′·(1 + Σ c_X·X) — affine in the loading tracers with constant term 1', str(e), loc):
+      continue
+    cX = dict(zip(names, res[0]))
+    # (b) the T_ref half: nodal arguments of the to_modal calls of the two corrections
+    Tref = lambda B: B.name(lambda t: t.k == 'attr' and t.a[1] in ('T_ref', 'reference_temperature'), 'Tref')
+    for m, part in (('vorticity_tendency_due_to_humidity', 'curl'), ('divergence_tendency_due_to_humidity', 'div')):
+      g = cls.find_method(m)
+      gv, _, _ = ev.run(g, self_cls=cls)
+      st, ax = S(g.param_names()[1]), S(g.param_names()[2])
+      B = alg.Algebra(ev)
+      R2 = B.name(lambda t: t.k == 'attr' and t.a[1] in ('R', 'ideal_gas_constant') and sym.show(t.a[0]).endswith('physics_specs'), 'R', positive=True)
+      Rv2 = B.name(lambda t: t.k == 'attr' and t.a[1] in ('R_vapor', 'water_vapor_gas_constant') and sym.show(t.a[0]).endswith('physics_specs'), 'Rv', positive=True)
+      T2 = Tref(B)
+      sec2 = B.name(lambda t: t.k == 'attr' and t.a[1] == 'sec2_lat', 'sec2', positive=True)
+      # to_modal is linear: the value is Σ ± to_modal(arg) (+ the geopotential part, which carries no ∇ln pₛ)
+      tm = B.name(lambda t: False, 'unused')
+      calls = [t for t in sym.walk(gv) if t.k == 'call' and util.callee_name(t) == 'to_modal' and sym.contains(t, lambda z: z.k == 'attr' and z.a[1] == 'cos_lat_grad_log_sp')]
+      chk.require(bool(calls), f'{site}.{m}: no to_modal(… ∇ln pₛ …) term found')
+      C = alg.Algebra(ev, opaque=lambda t: t in calls)
+      C.named = list(B.named)
+      whole = sp.expand(C.conv(gv))
+      nodal = sp.Integer(0)
+      okl = True
+      for cterm in set(calls):
+        at = C.atom(cterm)
+        co = whole.coeff(at, 1)
+        okl = okl and co.is_number
+        nodal = nodal + co * B.conv(util.call_args(cterm)[0])
+      chk.check(okl, rule, f'{site}.{m}: the ∇ln pₛ corrections enter through to_modal with constant weights', str(whole)[:160], (g.file, g.lineno))
+      L = [B.conv(Term('sub', Term('attr', ax, 'cos_lat_grad_log_sp'), sym.const(i))) for i in (0, 1)]
+      lap = [t for t in sym.walk(gv) if t.k == 'call' and util.callee_name(t) == 'to_nodal' and util.call_args(t) and util.callee_name(util.call_args(t)[0]) == 'laplacian']
+      LAP = B.conv(lap[0]) if lap else sp.Integer(0)
+      want = sp.Integer(0)
+      grads = {t for t in sym.walk(gv) if t.k == 'call' and util.callee_name(t) == 'to_nodal' and util.call_args(t) and util.callee_name(util.call_args(t)[0]) == 'cos_lat_grad'
+               and sym.contains(t, lambda z: z.k == 'attr' and z.a[1] == 'tracers')}
+      groups = {}
+      for gt in grads:
+        keys = frozenset(tracer_keys(gt))
+        groups[keys] = gt
+      covered = set()
+      for keys, gt in groups.items():
+        cs = {sp.simplify(cX.get(k_, sp.nan)) for k_ in keys}
+        if len(cs) != 1:
+          chk.violation(rule, f'{site}.{m}: tracers {sorted(keys)} are differentiated together', 'they share one gradient but load the virtual temperature with different coefficients', (g.file, g.lineno))
+          continue
+        c_ = list(cs)[0]
+        covered |= set(keys)
+        GX = [B.conv(Term('sub', gt, sym.const(i))) for i in (0, 1)]
+        XN = sum(B.conv(Term('sub', Term('attr', ax, 'tracers'), sym.const(k_))) for k_ in sorted(keys))
+        if part == 'curl':
+          want = want + R2 * T2 * c_ * sec2 * (L[0] * GX[1] - L[1] * GX[0])
+        else:
+          want = want - R2 * T2 * c_ * (XN * LAP + sec2 * (GX[0] * L[0] + GX[1] * L[1]))
+      chk.check(covered == set(names), rule, f'{site}.{m}: every tracer that loads the virtual temperature has a T_ref term', f'{sorted(covered)} vs {sorted(names)}', (g.file, g.lineno))
+      got = sp.expand(nodal.subs(Rv2, Rv2))
+      chk.check(alg.equal(got, want), rule, f'{site}.{m}: the T_ref half is R·T_ref·c_X·{"(∇ln pₛ × ∇X)·sec²" if part == "curl" else "−(X ∆ln pₛ + ∇X·∇ln pₛ·sec²)"} with the c_X of the virtual temperature '
+                '(' + ', '.join(k_.split('_', 1)[1][:12] + ': ' + str(sp.simplify(v_)) for k_, v_ in cX.items()) + ')', str(sp.factor(got))[:200], (g.file, g.lineno), str(sp.factor(want))[:200], str(sp.factor(got))[:200])
+  chk.at_least(rule, 8)
+
+
 def run(chk, prog, tier):
+  rule_loading_coefficients(chk, prog)
   rule_virtual_temperature(chk, prog)
   rule_pairing(chk, prog)
   rule_implicit_side(chk, prog)
